@@ -5,11 +5,11 @@
 sid=$1; wtid=$2; shift 2
 wt=/tmp/wt/$wtid
 cd "$wt" || exit 9
-git checkout -q -- . ; git clean -fdq
+git checkout -q -- . ; git clean -fdq -e out
 git apply /verif/seeded/$sid/patch.diff || { echo "PATCH-DOES-NOT-APPLY $sid"; exit 9; }
 for p in "$@"; do
   out=$(cd /verif && VERIF_REPO=$wt VERIF_EVIDENCE_DIR=/tmp/wt/evidence-$wtid timeout 3000 ./bin/verif check "$p" --tier quick 2>&1); rc=$?
   echo "== $sid :: $p rc=$rc"
   echo "$out" | grep -E "^VIOLATION|^KNOWN|^INCONCLUSIVE|^OK|^SPURIOUS|^UNCONFIRMED|^  harness|^  deadlock" | cut -c1-260 | head -8
 done
-git checkout -q -- . ; git clean -fdq
+git checkout -q -- . ; git clean -fdq -e out
